@@ -60,7 +60,7 @@ ASSUMPTIONS = [
 ]
 MIN_LABELS = {
     "C03": {"replacement": 0.3, "expiry": 0.1, "clamped": 0.3, "bounds_change": 0.2},
-    "C04": {"conflict_free": 0.6, "clamped_by_higher": 0.1, "excl_moves": 0.05},
+    "C04": {"conflict_free": 0.6, "clamped_by_higher": 0.05, "excl_moves": 0.015},
 }
 
 GRID = [float(x) for x in range(-250, 251, 5)]
